@@ -10887,7 +10887,7 @@ func ruleCacheInitHeight(c *Ctx) {
 			if !ok || sl.High == nil {
 				return true
 			}
-			call, ok := ast.Unparen(sl.High).(*ast.CallExpr)
+			call, ok := ast.Unparen(resolveLocalOnce(f.Info, f.Body, sl.High)).(*ast.CallExpr)
 			if !ok || !strings.HasSuffix(f.calleeSym(call), ".GetNumOfCNs") || len(call.Args) != 1 {
 				return true
 			}
